@@ -4,6 +4,8 @@ import (
 	"fmt"
 	"go/types"
 
+	"golang.org/x/tools/go/ssa"
+
 	"verif/engine/smt"
 	"verif/engine/term"
 )
@@ -237,6 +239,8 @@ func (x *Exec) vnd(name string, args []Value) Value {
 		return nil
 	case "vndKnown":
 		return c.BoolC(x.openKnown[strArg(args[0])])
+	case "vndLoopStepCRC16":
+		return x.loopStepCRC16(args)
 	case "vndDeepEqual":
 		return x.deepEqual(args[0], args[1], 0)
 	case "vndIsNilPtr":
@@ -468,4 +472,61 @@ func (x *Exec) deepEqual(a, b Value, depth int) *term.Term {
 	}
 	x.unsupported("vndDeepEqual on %T", a)
 	return nil
+}
+
+// loopStepCRC16: cut-point execution of one trip of packet.CRC16's range loop (see cutSpec).
+func (x *Exec) loopStepCRC16(args []Value) Value {
+	pkg := x.eng.Pkgs[RepoModule+"/packet"]
+	fn := pkg.Func("CRC16")
+	var header *ssa.BasicBlock
+	for _, b := range fn.Blocks {
+		if b.Comment == "rangeindex.loop" {
+			header = b
+		}
+	}
+	if header == nil {
+		x.unsupported("CRC16 has no range loop header (shape changed): cut-point not applicable")
+	}
+	nphi := 0
+	for _, ins := range header.Instrs {
+		if _, ok := ins.(*ssa.Phi); ok {
+			nphi++
+		}
+	}
+	if nphi != 2 {
+		x.unsupported("CRC16 loop carries %d values, expected exactly (crc, index)", nphi)
+	}
+	// which phi is the crc (uint16) and which the index (int)
+	over := make([]Value, 2)
+	crcPos := -1
+	for i := 0; i < 2; i++ {
+		phi := header.Instrs[i].(*ssa.Phi)
+		if w, _, _ := typeWidth(phi.Type()); w == 16 {
+			over[i] = args[1]
+			crcPos = i
+		} else {
+			over[i] = args[2]
+		}
+	}
+	if crcPos < 0 {
+		x.unsupported("CRC16 loop: no 16-bit loop-carried value")
+	}
+	fr := &frame{fn: fn, regs: map[ssa.Value]Value{}, visits: map[*ssa.BasicBlock]int{}, cut: &cutSpec{header: header, override: over}}
+	fr.regs[fn.Params[0]] = args[0]
+	x.funcs[fn.String()+" [one loop trip from an arbitrary state]"]++
+	var out Value
+	func() {
+		defer func() {
+			if r := recover(); r != nil {
+				if cb, ok := r.(cutBack); ok {
+					out = Tuple{cb.vals[crcPos], cb.vals[1-crcPos], x.ctx.False(), x.ctx.Const(16, 0)}
+					return
+				}
+				panic(r)
+			}
+		}()
+		ret := x.runBlocks(fr, fn.Blocks[0], nil)
+		out = Tuple{x.ctx.Const(16, 0), x.i64(0), x.ctx.True(), ret}
+	}()
+	return out
 }
